@@ -261,6 +261,15 @@ Definition enough (net : bool) (limit : Z) (d : db) : Prop :=
 
 Definition own_hashes (d : db) : list N := map b_hash (filter b_mine (blobs d)).
 
+(* ---- a database created by an older release (db_revision <= 14), upgraded by migrate14to15:
+        alter table blob add column added_on integer not null default 0;
+        alter table blob add column is_mine integer not null default 1;
+   every row that existed before the upgrade becomes the user's own (nothing stored earlier may be evicted) ---- *)
+Definition migrate_row (r : N * N * bool) : blob := mkBlob (fst (fst r)) (snd (fst r)) 0 true (snd r).
+Definition migrated_db (legacy : list (N * N * bool)) (post : list blob)
+                       (sb st : list (N * N)) (fl dk : list N) : db :=
+  mkDb (map migrate_row legacy ++ post) sb st fl dk.
+
 (* a list is ordered by a (total, transitive) boolean order *)
 Fixpoint sorted_by (le : row -> row -> bool) (l : list row) : Prop :=
   match l with
